@@ -377,7 +377,9 @@ def _own_writes(ctx: Ctx, f: Func, cls: Class, _seen: Optional[Set[int]] = None)
     self_name = f.params[0] if f.params else "self"
     for n in own_nodes(f.node):
         if isinstance(n, (ast.Assign, ast.AugAssign, ast.AnnAssign)):
-            for t in n.targets if isinstance(n, ast.Assign) else [n.target]:
+            tgts_ = n.targets if isinstance(n, ast.Assign) else [n.target]
+            tgts_ = [e for t in tgts_ for e in (t.elts if isinstance(t, (ast.Tuple, ast.List)) else [t])]  # `self._a, self._b = pair`
+            for t in tgts_:
                 if isinstance(t, ast.Attribute) and isinstance(t.value, ast.Name) and t.value.id == self_name:
                     stt = cls.lookup_setter(t.attr)
                     if stt is not None:
